@@ -168,6 +168,11 @@ func cfgTags(cfg string) string {
 	return strings.Join(tags, ",")
 }
 
+// resultPath names a worker's result file (its transcript, if any, is <path>.transcript).
+func resultPath(work string, u Unit, cfg string, shard int) string {
+	return filepath.Join(work, fmt.Sprintf("res_%s_%s_%s_%016x_%d.json", pkgKey(u.Pkg), u.Job, cfg, hashStr(u.Params), shard))
+}
+
 func pkgKey(pkg string) string {
 	if pkg == "" {
 		return "root"
@@ -402,7 +407,7 @@ func (st *runState) run(workers int) int {
 			sem <- true
 			defer func() { <-sem }()
 			// (units that differ only in their parameters - cpus=3, cpus=6 - run side by side: the parameters are part of the file name)
-			out := filepath.Join(st.work, fmt.Sprintf("res_%s_%s_%s_%016x_%d.json", pkgKey(w.run.Unit.Pkg), w.run.Unit.Job, w.run.Config, hashStr(w.run.Unit.Params), w.shard))
+			out := resultPath(st.work, w.run.Unit, w.run.Config, w.shard)
 			res, keys, err := runWorker(w.run.Bin, w.run.Unit, w.run.Config, st.tier, st.seed, w.shard, w.n, -1, deadline, out)
 			mu.Lock()
 			defer mu.Unlock()
